@@ -243,6 +243,16 @@ pub fn run_app(
             .unwrap_or_else(|| panic!("Failed to open stdout"));
         let cmd_stdout_buf = io::BufReader::new(cmd_stdout);
 
+        // Drain the subcommand's stderr concurrently. If it were only read after stdout has
+        // reached EOF, a subcommand writing more than the pipe capacity to stderr would block
+        // forever, and delta with it.
+        let cmd_stderr = cmd
+            .stderr
+            .take()
+            .unwrap_or_else(|| panic!("Failed to open stderr"));
+        let stderr_reader =
+            std::thread::spawn(move || io::BufReader::new(cmd_stderr).lines().collect::<Vec<_>>());
+
         let res = delta(cmd_stdout_buf.byte_lines(), &mut writer, &config);
 
         if let Err(error) = res {
@@ -267,11 +277,7 @@ pub fn run_app(
                 config.error_exit_code
             });
 
-        let mut stderr_lines = io::BufReader::new(
-            cmd.stderr
-                .unwrap_or_else(|| panic!("Failed to open stderr")),
-        )
-        .lines();
+        let mut stderr_lines = stderr_reader.join().unwrap_or_default().into_iter();
         if let Some(line1) = stderr_lines.next() {
             // prefix the first error line with the called subcommand
             eprintln!(
